@@ -420,6 +420,64 @@ def rule_blocker_recorded(chk, prog):
     (r.bad if bad else r.ok)("Avoid::Router::checkAllBlockedEdges", fn.where(), bad or "")
 
 
+def rule_missing_edges(chk, prog):
+    """Router::checkAllMissingEdges (visibility graph without invisibility edges): which vertex pairs are (re)tested after a change."""
+    from ..microai.interp import Interp, Obj, Oracle, Unsupported, AssertFail, default_obj
+    r = chk.rule("MISSING-EDGES-PAIRS", "Router::checkAllMissingEdges interpreted on a vertex list with the end points of two connectors followed by "
+                 "the corners of two shapes (no edge exists yet): EdgeInf::checkEdgeVisibility is asked for every pair of vertices except two end "
+                 "points of DIFFERENT connectors -- in particular for every (end point, shape corner) pair, which is how an edge that a moved or "
+                 "deleted obstacle used to block comes back", floor=1)
+    fn = prog.fn("Avoid::Router::checkAllMissingEdges")
+    CONN = 1          # VertID::PROP_ConnPoint
+    spec = [("c1.src", 1, 1, CONN), ("c1.dst", 1, 2, CONN), ("c2.src", 2, 1, CONN), ("c2.dst", 2, 2, CONN),
+            ("s5.v0", 5, 0, 0), ("s5.v1", 5, 1, 0), ("s6.v0", 6, 0, 0)]
+    props = None
+    for q, v in prog.vars.items():
+        if q == "Avoid::VertID::PROP_ConnPoint":
+            props = v
+    verts = []
+    for name, obj, vn, pr in spec:
+        vid = default_obj(prog, "Avoid::VertID", {"objID": obj, "vn": vn, "props": pr})
+        verts.append(default_obj(prog, "Avoid::VertInf", {"id": vid, "_name": name, "lstNext": None}))
+    for a, b in zip(verts, verts[1:]):
+        a.f["lstNext"] = b
+    router = default_obj(prog, "Avoid::Router", {"InvisibilityGrph": False})
+    asked = []
+    it = Interp(prog, Oracle([]), globals={"Avoid::VertID::PROP_ConnPoint": None} if False else None)
+    it.vhooks["Avoid::VertInfList::connsBegin"] = lambda it_, recv, args: verts[0]
+    it.vhooks["Avoid::VertInfList::end"] = lambda it_, recv, args: None
+    it.vhooks["Avoid::EdgeInf::existingEdge"] = lambda it_, recv, args: None
+    it.vhooks["Avoid::EdgeInf::checkEdgeVisibility"] = lambda it_, recv, args: asked.append(frozenset((args[0].f["_name"], args[1].f["_name"])))
+    it.vhooks["Avoid::VertID::isConnPt"] = lambda it_, recv, args: bool(recv.f["props"] & CONN)
+    it.vhooks["Avoid::VertID::isConnectionPin"] = lambda it_, recv, args: False
+    r.count()
+    try:
+        it.call(fn, router, None, None, arg_values=[])
+    except Unsupported as e:
+        raise AnalysisBroken("checkAllMissingEdges outside the interpreter subset: %s" % e)
+    except AssertFail as e:
+        r.bad("pairs examined", fn.where(), "assertion fails: %s" % e)
+        return
+    names = [x[0] for x in spec]
+    conn_of = {x[0]: x[1] for x in spec if x[3]}
+    want = set()
+    for i in range(len(names)):
+        for j in range(i):
+            a, b = names[i], names[j]
+            if a in conn_of and b in conn_of and conn_of[a] != conn_of[b]:
+                continue
+            want.add(frozenset((a, b)))
+    got = set(asked)
+    bad = None
+    if got != want:
+        miss = sorted(tuple(sorted(x)) for x in want - got)
+        extra = sorted(tuple(sorted(x)) for x in got - want)
+        bad = "pairs never tested: %s; pairs tested although they are end points of different connectors: %s" % (miss[:4], extra[:4])
+    elif len(asked) != len(got):
+        bad = "a pair is tested twice"
+    (r.bad if bad else r.ok)("pairs examined", fn.where(), bad or "%d pairs" % len(got))
+
+
 def run(chk):
     prog = chk.load()
     from .c16 import run_subjects
@@ -433,3 +491,8 @@ def run(chk):
     chk.guard(rule_node_order, chk, prog)
     chk.guard(rule_cost, chk, prog)
     chk.guard(rule_edge_length, chk, prog)
+    chk.guard(rule_missing_edges, chk, prog)
+    from .c16 import rule_shape_blocking
+    chk.guard(rule_shape_blocking, chk, prog, ("square",))      # which segments a convex obstacle blocks
+    from .c03 import rule_sweep_set_total
+    chk.guard(rule_sweep_set_total, chk, prog)
